@@ -38,7 +38,7 @@ int main(void){ %(setup)s(); %(calls)s %(check)s(); return 0; }
 
 
 def seqir(srcs, threads, rounds, defs=(), setup="setup", check="check", extra_passes="", validate=True,
-          noprune=False, thread_unwind=3, drain=False, benign=(), ro_fields=()):
+          noprune=False, thread_unwind=3, drain=False, benign=(), ro_fields=(), validate_inputs=None):
     def gen(ctx, q, qdir, overlays):
         incs = ctx.inc_flags(overlays, q.incs)
         lls = []
@@ -102,22 +102,23 @@ def seqir(srcs, threads, rounds, defs=(), setup="setup", check="check", extra_pa
             "pruning": "off" if noprune else "stutter iterations of phi-less loop headers",
         })
         if validate:
-            _validate(ctx, q, qdir, incs, genc, paths, threads, setup, check, list(defs) + list(q.defs))
+            _validate(ctx, q, qdir, incs, genc, paths, threads, setup, check, list(defs) + list(q.defs), validate_inputs)
     return gen
 
 
-def _validate(ctx, q, qdir, incs, genc, paths, threads, setup, check, defs):
+def _validate(ctx, q, qdir, incs, genc, paths, threads, setup, check, defs, inputs=None):
     """translator validation on a concrete sequential script (never yield)."""
     # (a) generated C, natively, schedule = all zeros (IN_* draws of the harness also 0)
     zeros = os.path.join(qdir, "zeros.txt")
     with open(zeros, "w") as f:
-        f.write("0\n" * 20000)
+        # harness inputs for the concrete sequential script (default: all zeros); yields draw nothing here (VP_NOYIELD)
+        f.write("".join("%d\n" % v for v in (inputs or [])) + "0\n" * 20000)
     exe_g = os.path.join(qdir, "val_gen.exe")
     cmd = ["gcc", "-O0", "-w", "-DVP_NATIVE", "-o", exe_g] + STATIC_LINK + PRODUCT_FLAGS + incs + [genc]
     rc, o, e, _, _ = run_cmd(cmd, cwd=qdir, timeout=300)
     if rc != 0:
         raise InternalError("translator validation: generated C does not compile natively: %s" % (e or o)[-2500:])
-    rcg, og, eg, _, _ = run_cmd([exe_g], cwd=qdir, timeout=60, env=dict(os.environ, VP_REPLAY=zeros))
+    rcg, og, eg, _, _ = run_cmd([exe_g], cwd=qdir, timeout=60, env=dict(os.environ, VP_REPLAY=zeros, VP_NOYIELD="1"))
     # (b) the harness itself, compiled by gcc against the same sources
     dm = os.path.join(qdir, "direct_main.c")
     with open(dm, "w") as f:
@@ -125,13 +126,13 @@ def _validate(ctx, q, qdir, incs, genc, paths, threads, setup, check, defs):
                                "decls": " ".join("extern void %s(void);" % t for t in threads),
                                "calls": " ".join("%s();" % t for t in threads)})
     exe_d = os.path.join(qdir, "val_direct.exe")
-    cmd = (["gcc", "-O0", "-w", "-DVP_NATIVE", "-o", exe_d] + STATIC_LINK + PRODUCT_DEFS + PRODUCT_FLAGS + ["-D" + d for d in defs] +
+    cmd = (["gcc", "-O0", "-w", "-DVP_NATIVE", "-DVP_DIRECT", "-o", exe_d] + STATIC_LINK + PRODUCT_DEFS + PRODUCT_FLAGS + ["-D" + d for d in defs] +
            incs + paths + [dm, "-lpthread"])
     rc, o, e, _, _ = run_cmd(cmd, cwd=qdir, timeout=300)
     if rc != 0:
         raise InternalError("translator validation: direct build failed: %s" % (e or o)[-2500:])
     rcd, od, ed, _, _ = run_cmd([exe_d], cwd=qdir, timeout=60, env=dict(os.environ, VP_REPLAY=zeros))
-    norm = lambda x: re.sub(r"\([^()]*:\d+\)", "", x or "")
+    norm = lambda x: re.sub(r"VP-ASSUME-FAIL:[^\n]*", "VP-ASSUME-FAIL", re.sub(r"\([^()]*:\d+\)", "", x or ""))
     og, od = norm(og), norm(od)
     q.info["seqir"]["translator_validation"] = "gen rc=%s direct rc=%s outputs %s" % (
         rcg, rcd, "equal" if og == od else "DIFFER")
